@@ -261,6 +261,8 @@ def finish(prop, tier, t0, res_list, violations, knowns, flaky, coverage, assump
     for e in errors[:10]:
         print("ERROR: " + e)
         status = max(status, 2)
+    if violations:
+        status = 1      # a confirmed violation decides the verdict, whatever else went wrong beside it
     coverage = dict(coverage)
     coverage["known_findings_matched"] = [{"sig": k["sig"], "cases": k["count"]} for k in knowns]
     if errors or flaky:
